@@ -2,8 +2,8 @@ package c08
 
 import (
 	"context"
+	"errors"
 	"fmt"
-	"os"
 	"strings"
 	"time"
 
@@ -39,7 +39,7 @@ func rd[T any](name, desc string, call func(context.Context, db.ReadOnly) (T, er
 		exp, check := want(s.m)
 		countCall("method", name)
 
-		got, err := call(ctx, ro)
+		got, err := safely(func() (T, error) { return call(ctx, ro) })
 
 		if v, proceed := judge(desc, exp, err); v != nil {
 			return v, false
@@ -62,7 +62,7 @@ func wr[T any](name, desc string, big bool, call func(context.Context, db.Transa
 		exp, check := mod(s.m)
 		countCall("method", name)
 
-		got, err := call(ctx, tx)
+		got, err := safely(func() (T, error) { return call(ctx, tx) })
 
 		if v, proceed := judge(desc, exp, err); v != nil {
 			return v, true
@@ -202,20 +202,6 @@ func opAddMessages(bid imap.InternalMailboxID, pairs []idPair, listDesc string, 
 		return tx.AddMessagesToMailbox(ctx, bid, toPairs(pairs))
 	}, func(m *model) (expect, func([]db.UIDWithFlags) error) {
 		exp, entries := m.addMessages(bid, pairs)
-		if exp != expOK && os.Getenv("C08_DEBUG") != "" {
-			_, mb := m.mboxes[bid]
-			why := ""
-			for _, p := range pairs {
-				if _, ok := m.msgs[p.id]; !ok {
-					why += " unknown:" + shortID(p.id)
-				} else if b := m.mboxes[bid]; b != nil {
-					if _, ok := b.byMsg[p.id]; ok {
-						why += " member:" + shortID(p.id)
-					}
-				}
-			}
-			fmt.Println("DEBUG addMessages fails:", desc, "mailbox exists:", mb, "msgs:", len(m.msgs), why)
-		}
 		if exp == expErr && lenient {
 			exp = expLenient // (never reached without error: the model has not changed)
 		}
@@ -284,7 +270,9 @@ func allRules() []rule {
 		rid := g.mboxRID(70)
 
 		return rd("GetMailboxIDFromRemoteID", fmt.Sprintf("GetMailboxIDFromRemoteID(%q)", rid),
-			func(ctx context.Context, ro db.ReadOnly) (imap.InternalMailboxID, error) { return ro.GetMailboxIDFromRemoteID(ctx, rid) },
+			func(ctx context.Context, ro db.ReadOnly) (imap.InternalMailboxID, error) {
+				return ro.GetMailboxIDFromRemoteID(ctx, rid)
+			},
 			func(m *model) (expect, func(imap.InternalMailboxID) error) {
 				if b := m.mboxByRemote(rid); b != nil {
 					return expOK, eq(b.id)
@@ -312,7 +300,9 @@ func allRules() []rule {
 		rid := g.mboxRID(70)
 
 		return rd("GetMailboxNameWithRemoteID", fmt.Sprintf("GetMailboxNameWithRemoteID(%q)", rid),
-			func(ctx context.Context, ro db.ReadOnly) (string, error) { return ro.GetMailboxNameWithRemoteID(ctx, rid) },
+			func(ctx context.Context, ro db.ReadOnly) (string, error) {
+				return ro.GetMailboxNameWithRemoteID(ctx, rid)
+			},
 			func(m *model) (expect, func(string) error) {
 				if b := m.mboxByRemote(rid); b != nil {
 					return expOK, eq(b.name)
@@ -326,7 +316,9 @@ func allRules() []rule {
 		id := g.mboxID(85)
 
 		return rd("GetMailboxMessageIDPairs", fmt.Sprintf("GetMailboxMessageIDPairs(%v)", id),
-			func(ctx context.Context, ro db.ReadOnly) ([]db.MessageIDPair, error) { return ro.GetMailboxMessageIDPairs(ctx, id) },
+			func(ctx context.Context, ro db.ReadOnly) ([]db.MessageIDPair, error) {
+				return ro.GetMailboxMessageIDPairs(ctx, id)
+			},
 			func(m *model) (expect, func([]db.MessageIDPair) error) {
 				b := m.mboxes[id]
 				exp := expOK
@@ -354,7 +346,9 @@ func allRules() []rule {
 
 	add("GetAllMailboxesWithAttr", false, false, func(g *genCtx) *op {
 		return rd("GetAllMailboxesWithAttr", "GetAllMailboxesWithAttr()",
-			func(ctx context.Context, ro db.ReadOnly) ([]*db.MailboxWithAttr, error) { return ro.GetAllMailboxesWithAttr(ctx) },
+			func(ctx context.Context, ro db.ReadOnly) ([]*db.MailboxWithAttr, error) {
+				return ro.GetAllMailboxesWithAttr(ctx)
+			},
 			func(m *model) (expect, func([]*db.MailboxWithAttr) error) {
 				return expOK, func(got []*db.MailboxWithAttr) error {
 					var g, w []string
@@ -374,7 +368,9 @@ func allRules() []rule {
 
 	add("GetAllMailboxesAsRemoteIDs", false, false, func(g *genCtx) *op {
 		return rd("GetAllMailboxesAsRemoteIDs", "GetAllMailboxesAsRemoteIDs()",
-			func(ctx context.Context, ro db.ReadOnly) ([]imap.MailboxID, error) { return ro.GetAllMailboxesAsRemoteIDs(ctx) },
+			func(ctx context.Context, ro db.ReadOnly) ([]imap.MailboxID, error) {
+				return ro.GetAllMailboxesAsRemoteIDs(ctx)
+			},
 			func(m *model) (expect, func([]imap.MailboxID) error) {
 				return expOK, func(got []imap.MailboxID) error {
 					var g, w []string
@@ -425,7 +421,9 @@ func allRules() []rule {
 		rid := g.mboxRID(70)
 
 		return fmt.Sprintf("GetMailboxByRemoteID(%q)", rid),
-			func(ctx context.Context, ro db.ReadOnly) (*db.Mailbox, error) { return ro.GetMailboxByRemoteID(ctx, rid) },
+			func(ctx context.Context, ro db.ReadOnly) (*db.Mailbox, error) {
+				return ro.GetMailboxByRemoteID(ctx, rid)
+			},
 			func(m *model) *mMbox { return m.mboxByRemote(rid) }
 	})
 
@@ -458,7 +456,9 @@ func allRules() []rule {
 		rid := g.mboxRID(80)
 
 		return rd("GetMailboxMessageCountWithRemoteID", fmt.Sprintf("GetMailboxMessageCountWithRemoteID(%q)", rid),
-			func(ctx context.Context, ro db.ReadOnly) (int, error) { return ro.GetMailboxMessageCountWithRemoteID(ctx, rid) },
+			func(ctx context.Context, ro db.ReadOnly) (int, error) {
+				return ro.GetMailboxMessageCountWithRemoteID(ctx, rid)
+			},
 			func(m *model) (expect, func(int) error) {
 				if b := m.mboxByRemote(rid); b != nil {
 					return expOK, eq(len(b.entries))
@@ -534,7 +534,9 @@ func allRules() []rule {
 		id := g.mboxID(90)
 
 		return rd("GetMailboxMessageForNewSnapshot", fmt.Sprintf("GetMailboxMessageForNewSnapshot(%v)", id),
-			func(ctx context.Context, ro db.ReadOnly) ([]db.SnapshotMessageResult, error) { return ro.GetMailboxMessageForNewSnapshot(ctx, id) },
+			func(ctx context.Context, ro db.ReadOnly) ([]db.SnapshotMessageResult, error) {
+				return ro.GetMailboxMessageForNewSnapshot(ctx, id)
+			},
 			func(m *model) (expect, func([]db.SnapshotMessageResult) error) {
 				b := m.mboxes[id]
 				exp := expOK
@@ -610,7 +612,9 @@ func allRules() []rule {
 		}
 
 		o := rd("MailboxTranslateRemoteIDs", "MailboxTranslateRemoteIDs("+desc+")",
-			func(ctx context.Context, ro db.ReadOnly) ([]imap.InternalMailboxID, error) { return ro.MailboxTranslateRemoteIDs(ctx, rids) },
+			func(ctx context.Context, ro db.ReadOnly) ([]imap.InternalMailboxID, error) {
+				return ro.MailboxTranslateRemoteIDs(ctx, rids)
+			},
 			func(m *model) (expect, func([]imap.InternalMailboxID) error) {
 				// unknown remote ids are skipped (applyMessageMailboxesUpdated relies on that)
 				var want []string
@@ -638,7 +642,9 @@ func allRules() []rule {
 		desc := fmt.Sprintf("MailboxFilterContains(mbox=%v, %s)", id, l.desc)
 
 		o := rd("MailboxFilterContains", desc,
-			func(ctx context.Context, ro db.ReadOnly) ([]imap.InternalMessageID, error) { return ro.MailboxFilterContains(ctx, id, toPairs(pairs)) },
+			func(ctx context.Context, ro db.ReadOnly) ([]imap.InternalMessageID, error) {
+				return ro.MailboxFilterContains(ctx, id, toPairs(pairs))
+			},
 			func(m *model) (expect, func([]imap.InternalMessageID) error) {
 				b := m.mboxes[id]
 				exp := expOK
@@ -675,7 +681,9 @@ func allRules() []rule {
 
 	add("GetAllMailboxesNameAndRemoteID", false, false, func(g *genCtx) *op {
 		return rd("GetAllMailboxesNameAndRemoteID", "GetAllMailboxesNameAndRemoteID()",
-			func(ctx context.Context, ro db.ReadOnly) ([]db.MailboxNameAndRemoteID, error) { return ro.GetAllMailboxesNameAndRemoteID(ctx) },
+			func(ctx context.Context, ro db.ReadOnly) ([]db.MailboxNameAndRemoteID, error) {
+				return ro.GetAllMailboxesNameAndRemoteID(ctx)
+			},
 			func(m *model) (expect, func([]db.MailboxNameAndRemoteID) error) {
 				return expOK, func(got []db.MailboxNameAndRemoteID) error {
 					var g, w []string
@@ -734,7 +742,9 @@ func allRules() []rule {
 		id := g.msgID(75)
 
 		return rd("GetMessageRemoteID", fmt.Sprintf("GetMessageRemoteID(%s)", shortID(id)),
-			func(ctx context.Context, ro db.ReadOnly) (imap.MessageID, error) { return ro.GetMessageRemoteID(ctx, id) },
+			func(ctx context.Context, ro db.ReadOnly) (imap.MessageID, error) {
+				return ro.GetMessageRemoteID(ctx, id)
+			},
 			func(m *model) (expect, func(imap.MessageID) error) {
 				if mm := m.msgs[id]; mm != nil {
 					return expOK, eq(mm.remoteID)
@@ -748,7 +758,9 @@ func allRules() []rule {
 		id := g.msgID(75)
 
 		return rd("GetImportedMessageData", fmt.Sprintf("GetImportedMessageData(%s)", shortID(id)),
-			func(ctx context.Context, ro db.ReadOnly) (*db.MessageWithFlags, error) { return ro.GetImportedMessageData(ctx, id) },
+			func(ctx context.Context, ro db.ReadOnly) (*db.MessageWithFlags, error) {
+				return ro.GetImportedMessageData(ctx, id)
+			},
 			func(m *model) (expect, func(*db.MessageWithFlags) error) {
 				if mm := m.msgs[id]; mm != nil {
 					return expOK, func(got *db.MessageWithFlags) error {
@@ -800,7 +812,9 @@ func allRules() []rule {
 		id := g.msgID(80)
 
 		return rd("GetMessageMailboxIDs", fmt.Sprintf("GetMessageMailboxIDs(%s)", shortID(id)),
-			func(ctx context.Context, ro db.ReadOnly) ([]imap.InternalMailboxID, error) { return ro.GetMessageMailboxIDs(ctx, id) },
+			func(ctx context.Context, ro db.ReadOnly) ([]imap.InternalMailboxID, error) {
+				return ro.GetMessageMailboxIDs(ctx, id)
+			},
 			func(m *model) (expect, func([]imap.InternalMailboxID) error) {
 				return expOK, func(got []imap.InternalMailboxID) error {
 					return sameStrings("mailbox ids", strs(got), strs(m.mailboxesOf(id)), false)
@@ -813,7 +827,9 @@ func allRules() []rule {
 		desc := fmt.Sprintf("GetMessagesFlags(%s)", l.desc)
 
 		o := rd("GetMessagesFlags", desc,
-			func(ctx context.Context, ro db.ReadOnly) ([]db.MessageFlagSet, error) { return ro.GetMessagesFlags(ctx, l.ids) },
+			func(ctx context.Context, ro db.ReadOnly) ([]db.MessageFlagSet, error) {
+				return ro.GetMessagesFlags(ctx, l.ids)
+			},
 			func(m *model) (expect, func([]db.MessageFlagSet) error) {
 				// one entry per existing message, also for messages without flags (setMessageFlags reads curFlags[0]);
 				// ids that no longer exist are skipped (snapshot ids may lag behind)
@@ -844,7 +860,9 @@ func allRules() []rule {
 
 	add("GetMessageIDsMarkedAsDelete", false, false, func(g *genCtx) *op {
 		return rd("GetMessageIDsMarkedAsDelete", "GetMessageIDsMarkedAsDelete()",
-			func(ctx context.Context, ro db.ReadOnly) ([]imap.InternalMessageID, error) { return ro.GetMessageIDsMarkedAsDelete(ctx) },
+			func(ctx context.Context, ro db.ReadOnly) ([]imap.InternalMessageID, error) {
+				return ro.GetMessageIDsMarkedAsDelete(ctx)
+			},
 			func(m *model) (expect, func([]imap.InternalMessageID) error) {
 				return expOK, func(got []imap.InternalMessageID) error {
 					var w []string
@@ -864,7 +882,9 @@ func allRules() []rule {
 		rid := g.msgRID(65)
 
 		return rd("GetMessageIDFromRemoteID", fmt.Sprintf("GetMessageIDFromRemoteID(%q)", rid),
-			func(ctx context.Context, ro db.ReadOnly) (imap.InternalMessageID, error) { return ro.GetMessageIDFromRemoteID(ctx, rid) },
+			func(ctx context.Context, ro db.ReadOnly) (imap.InternalMessageID, error) {
+				return ro.GetMessageIDFromRemoteID(ctx, rid)
+			},
 			func(m *model) (expect, func(imap.InternalMessageID) error) {
 				if mm := m.msgByRemote(rid); mm != nil {
 					return expOK, eq(mm.id)
@@ -890,7 +910,9 @@ func allRules() []rule {
 
 	add("GetAllMessagesIDsAsMap", false, false, func(g *genCtx) *op {
 		return rd("GetAllMessagesIDsAsMap", "GetAllMessagesIDsAsMap()",
-			func(ctx context.Context, ro db.ReadOnly) (map[imap.InternalMessageID]struct{}, error) { return ro.GetAllMessagesIDsAsMap(ctx) },
+			func(ctx context.Context, ro db.ReadOnly) (map[imap.InternalMessageID]struct{}, error) {
+				return ro.GetAllMessagesIDsAsMap(ctx)
+			},
 			func(m *model) (expect, func(map[imap.InternalMessageID]struct{}) error) {
 				return expOK, func(got map[imap.InternalMessageID]struct{}) error {
 					var g, w []string
@@ -911,7 +933,9 @@ func allRules() []rule {
 
 	add("GetDeletedSubscriptionSet", false, false, func(g *genCtx) *op {
 		return rd("GetDeletedSubscriptionSet", "GetDeletedSubscriptionSet()",
-			func(ctx context.Context, ro db.ReadOnly) (map[imap.MailboxID]*db.DeletedSubscription, error) { return ro.GetDeletedSubscriptionSet(ctx) },
+			func(ctx context.Context, ro db.ReadOnly) (map[imap.MailboxID]*db.DeletedSubscription, error) {
+				return ro.GetDeletedSubscriptionSet(ctx)
+			},
 			func(m *model) (expect, func(map[imap.MailboxID]*db.DeletedSubscription) error) {
 				return expOK, func(got map[imap.MailboxID]*db.DeletedSubscription) error {
 					var g, w []string
@@ -1015,7 +1039,7 @@ func allRules() []rule {
 
 				countCall("method", "CreateMailboxIfNotExists")
 
-				err := tx.CreateMailboxIfNotExists(ctx, mb, delim, n.uidValidity)
+				_, err := safely(func() (none, error) { return none{}, tx.CreateMailboxIfNotExists(ctx, mb, delim, n.uidValidity) })
 
 				if v, proceed := judge(desc, exp, err); v != nil {
 					return v, true
@@ -1046,7 +1070,9 @@ func allRules() []rule {
 		rid, name := g.mboxRID(94), g.mboxName()
 
 		return wr("RenameMailboxWithRemoteID", fmt.Sprintf("RenameMailboxWithRemoteID(%q, %q)", rid, name), false,
-			noRes(func(ctx context.Context, tx db.Transaction) error { return tx.RenameMailboxWithRemoteID(ctx, rid, name) }),
+			noRes(func(ctx context.Context, tx db.Transaction) error {
+				return tx.RenameMailboxWithRemoteID(ctx, rid, name)
+			}),
 			func(m *model) (expect, func(none) error) { return m.renameMailbox(rid, name), nil })
 	})
 
@@ -1106,7 +1132,9 @@ func allRules() []rule {
 		}
 
 		return wr("RemoveMessagesFromMailbox", fmt.Sprintf("RemoveMessagesFromMailbox(mbox=%v, %s)", id, l.desc), len(l.ids) > 1000,
-			noRes(func(ctx context.Context, tx db.Transaction) error { return tx.RemoveMessagesFromMailbox(ctx, id, l.ids) }),
+			noRes(func(ctx context.Context, tx db.Transaction) error {
+				return tx.RemoveMessagesFromMailbox(ctx, id, l.ids)
+			}),
 			func(m *model) (expect, func(none) error) { return m.removeMessages(id, l.ids), nil })
 	})
 
@@ -1121,7 +1149,9 @@ func allRules() []rule {
 		}
 
 		return wr("ClearRecentFlagInMailboxOnMessage", fmt.Sprintf("ClearRecentFlagInMailboxOnMessage(mbox=%v, %s)", id, shortID(mid)), false,
-			noRes(func(ctx context.Context, tx db.Transaction) error { return tx.ClearRecentFlagInMailboxOnMessage(ctx, id, mid) }),
+			noRes(func(ctx context.Context, tx db.Transaction) error {
+				return tx.ClearRecentFlagInMailboxOnMessage(ctx, id, mid)
+			}),
 			func(m *model) (expect, func(none) error) { return m.clearRecentOn(id, mid), nil })
 	})
 
@@ -1139,7 +1169,9 @@ func allRules() []rule {
 		v := g.chance("deleted", 65)
 
 		return wr("SetMailboxMessagesDeletedFlag", fmt.Sprintf("SetMailboxMessagesDeletedFlag(mbox=%v, %s, %v)", id, l.desc, v), len(l.ids) > 1000,
-			noRes(func(ctx context.Context, tx db.Transaction) error { return tx.SetMailboxMessagesDeletedFlag(ctx, id, l.ids, v) }),
+			noRes(func(ctx context.Context, tx db.Transaction) error {
+				return tx.SetMailboxMessagesDeletedFlag(ctx, id, l.ids, v)
+			}),
 			func(m *model) (expect, func(none) error) { return m.setDeleted(id, l.ids, v), nil })
 	})
 
@@ -1312,8 +1344,13 @@ func allRules() []rule {
 			run: func(ctx context.Context, s *sut, _ db.ReadOnly, tx db.Transaction) (error, bool) {
 				countCall("method", "MarkMessageAsDeletedAndAssignRandomRemoteID")
 
-				err := tx.MarkMessageAsDeletedAndAssignRandomRemoteID(ctx, id)
+				_, err := safely(func() (none, error) { return none{}, tx.MarkMessageAsDeletedAndAssignRandomRemoteID(ctx, id) })
 				mm := s.m.msgs[id]
+
+				var pe *panicErr
+				if errors.As(err, &pe) {
+					return fmt.Errorf("MarkMessageAsDeletedAndAssignRandomRemoteID(%s): the call panicked: %v", shortID(id), pe.v), true
+				}
 
 				if mm == nil {
 					return nil, err != nil // no such message: nothing to do; an error is accepted
@@ -1348,7 +1385,9 @@ func allRules() []rule {
 		rid := g.msgRID(80)
 
 		return wr("MarkMessageAsDeletedWithRemoteID", fmt.Sprintf("MarkMessageAsDeletedWithRemoteID(%q)", rid), false,
-			noRes(func(ctx context.Context, tx db.Transaction) error { return tx.MarkMessageAsDeletedWithRemoteID(ctx, rid) }),
+			noRes(func(ctx context.Context, tx db.Transaction) error {
+				return tx.MarkMessageAsDeletedWithRemoteID(ctx, rid)
+			}),
 			func(m *model) (expect, func(none) error) {
 				if mm := m.msgByRemote(rid); mm != nil {
 					return m.markDeleted(mm.id), nil
@@ -1371,7 +1410,7 @@ func allRules() []rule {
 		var l idList
 
 		if g.bulk >= 0 {
-			l = g.bulkIDList(free, 40, true)
+			l = g.bulkIDList(free, 25, true)
 		} else {
 			n := pick(g, "len", smallLens)
 			seen := map[imap.InternalMessageID]bool{}
@@ -1407,6 +1446,20 @@ func allRules() []rule {
 	add("UpdateRemoteMessageID", true, false, func(g *genCtx) *op {
 		id, rid := g.msgID(92), g.msgRID(6)
 
+		if kf.Listed("F-C08b2") && g.m.inAnyMailbox(id) {
+			// the per-mailbox copy of the remote id is not updated: only messages that are in no mailbox (or unknown ids)
+			ev.Excluded(1)
+
+			id = g.freshMsgID()
+
+			for _, x := range g.m.msgOrder {
+				if !g.m.inAnyMailbox(x) {
+					id = x
+					break
+				}
+			}
+		}
+
 		o := wr("UpdateRemoteMessageID", fmt.Sprintf("UpdateRemoteMessageID(%s, %q)", shortID(id), rid), false,
 			noRes(func(ctx context.Context, tx db.Transaction) error { return tx.UpdateRemoteMessageID(ctx, id, rid) }),
 			func(m *model) (expect, func(none) error) { return m.updateRemoteMessageID(id, rid), nil })
@@ -1436,11 +1489,21 @@ func allRules() []rule {
 
 	add("SetFlagsOnMessages", true, true, func(g *genCtx) *op {
 		l := g.msgIDList(nil, 5, true)
-		// at least one flag: applyMessageFlagsSet calls it only "if remainingFlags.Len() != 0"
-		flags := g.flagList(msgFlag, 1, 3)
+		// the empty set is a legal argument (STORE FLAGS () must clear the flags); see F-C08e
+		var flags []string
 
-		if g.hintFlag != "" {
-			flags = newFlagset(append([]string{g.hintFlag}, flags...)...).spellings()
+		if g.chance("emptyset", 12) {
+			if kf.Listed("F-C08e") {
+				ev.Excluded(1)
+
+				flags = g.flagList(msgFlag, 1, 3)
+			}
+		} else {
+			flags = g.flagList(msgFlag, 1, 3)
+
+			if g.hintFlag != "" {
+				flags = newFlagset(append([]string{g.hintFlag}, flags...)...).spellings()
+			}
 		}
 
 		if kf.Listed("F-C03b") && len(l.ids) > 1 {
@@ -1452,7 +1515,9 @@ func allRules() []rule {
 		}
 
 		return wr("SetFlagsOnMessages", fmt.Sprintf("SetFlagsOnMessages(%s, %q)", l.desc, flags), len(l.ids) > 1000,
-			noRes(func(ctx context.Context, tx db.Transaction) error { return tx.SetFlagsOnMessages(ctx, l.ids, imapFlags(flags)) }),
+			noRes(func(ctx context.Context, tx db.Transaction) error {
+				return tx.SetFlagsOnMessages(ctx, l.ids, imapFlags(flags))
+			}),
 			func(m *model) (expect, func(none) error) { return m.setFlags(l.ids, flags), nil })
 	})
 
@@ -1470,7 +1535,9 @@ func allRules() []rule {
 		name := g.lookupName()
 
 		return wr("RemoveDeletedSubscriptionWithName", fmt.Sprintf("RemoveDeletedSubscriptionWithName(%q)", name), false,
-			func(ctx context.Context, tx db.Transaction) (int, error) { return tx.RemoveDeletedSubscriptionWithName(ctx, name) },
+			func(ctx context.Context, tx db.Transaction) (int, error) {
+				return tx.RemoveDeletedSubscriptionWithName(ctx, name)
+			},
 			func(m *model) (expect, func(int) error) { return expOK, eq(m.removeDeletedSubscription(name)) })
 	})
 
